@@ -4,4 +4,5 @@ pub mod ctx;
 pub mod gen;
 pub mod model;
 pub mod mon;
+pub mod prog;
 pub mod rng;
